@@ -24,19 +24,26 @@ RULE = (
     "<= 6 species / 5 reactions; symmetric families (rings, stars, duplicated reactions, disjoint copies, trees). "
     "Oracle: view rebuilt from the case; brute-force isomorphisms / automorphism group of the view restricted to the "
     "keys each class documents as compared. Non-trivial = view with a non-identity automorphism, or an edited "
-    "pair; distinct by (network, configuration, representation change, edit)."
+    "pair; distinct by (network, configuration, representation change, edit). faultinj: same networks, `id` of "
+    "synkit.CRN.Topo.canon shadowed so that chosen calls return the previous (freed) address; non-trivial = the "
+    "injection changed the execution (number of signature evaluations / id calls differs from the clean run). "
+    "wl: non-trivial = view with a non-identity automorphism."
 )
 ASSUMPTIONS = [
     "'structure' is what each class documents as compared: CRNCanonicalizer arcs + node_attr_keys + edge_attr_keys; "
     "CRNAutomorphism arcs + node_attr_keys (no edge attributes) - each is checked against its own notion",
     "explicit reaction ids are chosen so that they never equal a species name (the un-prefixed bipartite view shares "
     "one name space)",
+    "sub-checks families/exhaustive/random run on real addresses; a spy on the module's `id` (values unchanged) tells "
+    "whether CPython really reused a freed address inside one _refine call; a CRNCanonicalizer clause that fails in "
+    "such a run and is quiet when id() never repeats is reported as <clause>@natural-id-reuse (allocator dependent, "
+    "does not replay)",
     "fault injection: real address reuse is simulated by shadowing the module global `id` of synkit.CRN.Topo.canon; a "
     "pass means the result does not depend on whether a freed address is handed out again, not that CPython never "
     "does so",
 ]
 BIG = 10**9
-CANON_CLAUSES = ("aut-count", "aut-maps", "orbits", "orbits-duplicated-class", "nontrivial-flag", "canon-repeat", "rename-identical", "iso-but-different", "noniso-but-identical", "early-stop", "canon-iso")
+CANON_CLAUSES = ("aut-count", "aut-maps", "orbits", "nontrivial-flag", "canon-repeat", "rename-identical", "iso-but-different", "noniso-but-identical", "early-stop", "canon-iso")
 NATURAL = "@natural-id-reuse"
 
 
@@ -48,6 +55,7 @@ class Ctx:
     def __init__(self, unique=False):
         self.unique = unique
         self.reuse = 0
+        self.deferred = []  # violations of the low-severity clause, raised only if nothing else fails
 
     @contextmanager
     def canon_calls(self, c):
@@ -105,6 +113,8 @@ def guarded(inner):
             if plain is None:
                 if ctx.reuse:
                     rec.label("natural-id-reuse-observed(harmless)")
+                if ctx.deferred:
+                    raise Violation(*ctx.deferred[0])
                 return
             if ctx.reuse and plain.clause in CANON_CLAUSES:
                 again = None
@@ -252,9 +262,9 @@ def analyse(rx, ids, cfg, where, ctx, automorphism_class=True, extras=False):
     if set(R.partition(s["orbits"])) != set(orbits):
         raise Violation("orbits", f"{where}: orbits {R.partition(s['orbits'])} != exchangeability classes {orbits}")
     if len(s["orbits"]) != len(orbits):
-        raise Violation(
-            "orbits-duplicated-class",
-            f"{where}: the orbit list has {len(s['orbits'])} entries for {len(orbits)} classes: {R.partition(s['orbits'])}",
+        # raised at the end of the body: the classes are right, one of them is listed more than once
+        ctx.deferred.append(
+            ("orbits-duplicated-class", f"{where}: the orbit list has {len(s['orbits'])} entries for {len(orbits)} classes: {R.partition(s['orbits'])}")
         )
     if extras:
         if x_flag != (len(auts) > 1):
